@@ -14,6 +14,8 @@ import ast
 import copy
 import os
 
+from .model import _copy_tree
+
 HERE = os.path.dirname(os.path.abspath(__file__))
 KNOWN_FILE = os.path.join(HERE, 'known_functions.txt')
 MAX_DEPTH = 4
@@ -244,7 +246,7 @@ class _Subst(ast.NodeTransformer):
             kws = []
             for k in node.keywords:
                 if k.arg is None and isinstance(k.value, ast.Name) and k.value.id == self.kwarg:
-                    kws.extend(copy.deepcopy(x) for x in self.extra)
+                    kws.extend(_copy_tree(x) for x in self.extra)
                 else:
                     kws.append(k)
             node.keywords = kws
@@ -252,7 +254,7 @@ class _Subst(ast.NodeTransformer):
 
     def visit_Name(self, node):
         if node.id in self.expr_map and isinstance(node.ctx, ast.Load):
-            return ast.copy_location(copy.deepcopy(self.expr_map[node.id]), node)
+            return ast.copy_location(_copy_tree(self.expr_map[node.id]), node)
         if node.id in self.rename:
             return ast.copy_location(ast.Name(id=self.rename[node.id], ctx=node.ctx), node)
         return node
@@ -278,8 +280,8 @@ def _eliminate_returns(stmts, mk):
                 return out, False
             continue
         if isinstance(st, ast.If):
-            b, fb = _eliminate_returns(list(st.body) + copy.deepcopy(rest), mk)
-            o, fo = _eliminate_returns(list(st.orelse) + copy.deepcopy(rest), mk)
+            b, fb = _eliminate_returns(list(st.body) + _copy_tree(rest), mk)
+            o, fo = _eliminate_returns(list(st.orelse) + _copy_tree(rest), mk)
             new = ast.copy_location(ast.If(test=st.test, body=b or [ast.copy_location(ast.Pass(), st)], orelse=o), st)
             out.append(new)
             return out, fb or fo
@@ -307,7 +309,7 @@ def _eliminate_returns(stmts, mk):
         if isinstance(st, (ast.For, ast.While)) and not st.orelse:
             # search loop: `for ..: .. return V ..` + rest  ->  `for ..: .. RET = V; break ..` + `else: rest`
             body = _loop_returns(list(st.body), mk)
-            r, fr = _eliminate_returns(copy.deepcopy(rest), mk)
+            r, fr = _eliminate_returns(_copy_tree(rest), mk)
             new = copy.copy(st)
             new.body = body
             new.orelse = r
@@ -514,7 +516,7 @@ class Inliner:
     def instantiate(self, callee, call, depth):
         """-> (prelude statements, body statements with names substituted)"""
         binding = callee.bind(call)
-        body = copy.deepcopy(callee.body)
+        body = _copy_tree(callee.body)
         rename, expr_map, prelude = {}, {}, []
         for v in sorted(callee.stores - set(callee.params)):
             if v in self.gnames:
@@ -535,7 +537,7 @@ class Inliner:
                     self.gnames.add(p)
                 if newp != p:
                     rename[p] = newp
-                prelude.append(ast.copy_location(ast.Assign(targets=[ast.Name(id=newp, ctx=ast.Store())], value=copy.deepcopy(arg)), call))
+                prelude.append(ast.copy_location(ast.Assign(targets=[ast.Name(id=newp, ctx=ast.Store())], value=_copy_tree(arg)), call))
         sub = _Subst(expr_map, rename, callee.kwarg, callee.extra_keywords)
         body = [sub.visit(s) for s in body]
         # calls of further unknown functions inside the inlined body
@@ -560,7 +562,7 @@ class Inliner:
                     uses[n.id] = uses.get(n.id, 0) + 1
             if all(_is_simple(binding[p]) or uses.get(p, 0) <= 1 for p in callee.params) and \
                     not any(_names(binding[p]) & callee.scoped for p in callee.params) and not (set(callee.params) & callee.scoped):
-                e = _Subst(binding, {}, callee.kwarg, callee.extra_keywords).visit(copy.deepcopy(callee.body[0].value))
+                e = _Subst(binding, {}, callee.kwarg, callee.extra_keywords).visit(_copy_tree(callee.body[0].value))
                 e = ast.copy_location(e, call)
                 self.replace_expr(st, call, e)
                 return ('hoist', [])
@@ -583,9 +585,9 @@ class Inliner:
         if whole and isinstance(st, ast.Assign) and len(st.targets) == 1 and self.plain_target(st.targets[0]):
             tgt = st.targets[0]
             new, falls = _eliminate_returns(body, lambda v, r: [ast.copy_location(
-                ast.Assign(targets=[copy.deepcopy(tgt)], value=v if v is not None else ast.Constant(value=None)), r)])
+                ast.Assign(targets=[_copy_tree(tgt)], value=v if v is not None else ast.Constant(value=None)), r)])
             if falls:
-                new.append(ast.copy_location(ast.Assign(targets=[copy.deepcopy(tgt)], value=ast.Constant(value=None)), st))
+                new.append(ast.copy_location(ast.Assign(targets=[_copy_tree(tgt)], value=ast.Constant(value=None)), st))
             return ('replace', self.fix(prelude + new))
         tmp = self.fresh('%s__result' % callee.name.strip('_'))
         new, falls = _eliminate_returns(body, lambda v, r: [ast.copy_location(
